@@ -494,8 +494,22 @@ fn c01(thorough: bool) -> Suite {
         if thorough { &CAPS4 } else { &CAPS3 },
         if thorough { &[Class::DL, Class::DP, Class::D4, Class::B1, Class::DZ] } else { &[Class::DL, Class::DP, Class::D4] },
         &all_flavours(2),
-        &unb_sp(),
+        &if thorough { unb_sp() } else { vec![env(2, 1, None, UNB)] },
     ));
+    if !thorough {
+        // the same with a spurious return of the first park(), one class
+        ps.extend(core2(
+            "c01-full11-sp",
+            &with(&SEND_FULL, &[Op::Close(Side::S)]),
+            &with(&RECV_FULL, &[Op::Close(Side::R)]),
+            1,
+            1,
+            &CAPS3,
+            &[Class::DL],
+            &all_flavours(2),
+            &[env(2, 1, Some(0), UNB)],
+        ));
+    }
     // 2 threads, core alphabet, up to (2,2), preemption-bounded
     ps.extend(core2(
         "c01-core22",
